@@ -83,6 +83,24 @@ def mk_add(terms: Iterable[Term]) -> Term:
                 c = c + s[1]
             else:
                 flat.append(s)
+    # collect like terms: 2*x + x - 3*x = 0 (exact for ints; for floats it identifies the formula, not the rounding)
+    coef: dict = {}
+    order: list = []
+    for s in flat:
+        k, base = 1, s
+        if s[0] == "mul" and is_num(s[1]):
+            k = s[1][1]
+            base = s[2] if len(s) == 3 else ("mul",) + s[2:]
+        if base not in coef:
+            coef[base] = 0
+            order.append(base)
+        coef[base] = coef[base] + k
+    flat = []
+    for base in order:
+        k = coef[base]
+        if k == 0:
+            continue
+        flat.append(base if k == 1 else mk_mul([("const", k), base]))
     flat.sort(key=tkey)
     if c != 0 or not flat:
         flat.append(("const", c))
@@ -377,6 +395,7 @@ class Sym:
         self.loops0 = _loops
         self.local_fns: dict[str, ast.FunctionDef] = {}
         self._pending: list[Term] = []
+        self._exits: list[list] = []
         env: dict[str, Term] = {}
         a = f.node.args
         for p in a.posonlyargs + a.args + a.kwonlyargs + ([a.vararg] if a.vararg else []) + ([a.kwarg] if a.kwarg else []):
@@ -785,10 +804,13 @@ class Sym:
                 e2[k] = ("carried", k)
             c2 = _strip_bool(self.ev(st.test, e2, path, loops))
             self._record("test", st, None, c2, path, loops)
+            self._exits.append([])
             o = self.block(st.body, e2, mk_and([path, c2]), loops + (("while", c2),))
+            exits = self._exits.pop()
+            wenv = self._merge_exits(o.env if o.env is not None else (None if exits else e2), exits, mk_and([path, c2]), e2)
             out = dict(env)
             for k in assigned:
-                out[k] = ("loop", k, pre[k] if pre[k] is not None else UNDEF, (o.env or e2).get(k, UNDEF))
+                out[k] = ("loop", k, pre[k] if pre[k] is not None else UNDEF, wenv.get(k, UNDEF))
             ret = ("loopexit", ("while", c), o.ret, FALL) if o.ret is not None else None
             return Outcome(out, ret), path
         if isinstance(st, (ast.With, ast.AsyncWith)):
@@ -849,6 +871,8 @@ class Sym:
             self.local_fns[st.name] = st
             return Outcome(env, None), path
         if isinstance(st, (ast.Continue, ast.Break)):
+            if self._exits:
+                self._exits[-1].append((path, dict(env)))
             return Outcome(None, None), path
         if isinstance(st, ast.Delete):
             for t in st.targets:
@@ -889,6 +913,22 @@ class Sym:
             if cur[0] == "building" and cur[1] in ("list", "set"):
                 env[e.func.value.id] = ("building", cur[1], cur[2] + ((self.ev(e.args[0], env, path, loops), path, loops),))
 
+    @staticmethod
+    def _merge_exits(body_env: Optional[dict], exits: list, entry_path: Term, fallback: dict) -> dict:
+        """Environment at the end of one iteration: the fall-through one merged with those at break/continue."""
+        base = set(conj_of(entry_path))
+        cur = body_env
+        for p, e in reversed(exits):
+            extra = mk_and([l for l in conj_of(p) if l not in base])
+            if cur is None:
+                cur = e
+                continue
+            merged = {}
+            for k in set(cur) | set(e):
+                merged[k] = mk_ifexp(extra, e.get(k, UNDEF), cur.get(k, UNDEF))
+            cur = merged
+        return cur if cur is not None else fallback
+
     def _for(self, st: ast.For, env: dict, path: Term, loops: tuple) -> Outcome:
         it = self.ev(st.iter, env, path, loops)
         assigned = _assigned_names(st.body) | {x.id for x in ast.walk(st.target) if isinstance(x, ast.Name)}
@@ -906,8 +946,11 @@ class Sym:
                 e2[k] = ("carried", k) if pre.get(k) is not None else UNDEF
         self._bind_target(st.target, ("elem", it), e2)
         inner_loops = loops + (it,)
+        self._exits.append([])
         o = self.block(st.body, e2, path, inner_loops)
-        body_env = o.env if o.env is not None else e2
+        exits = self._exits.pop()
+        body_env = o.env if o.env is not None else (None if exits else e2)
+        body_env = self._merge_exits(body_env, exits, path, e2)
         out = dict(env)
         for k in assigned:
             if k in building:
